@@ -33,6 +33,17 @@ SCRIPTS["lcds_then_servo"] = ('from Reduino.Actuators import Servo, Led\nfrom Re
 SCRIPTS["i2c_servo_par"] = ('from Reduino.Actuators import Servo\nfrom Reduino.Displays import LCD\nb = LCD(i2c_addr=0x3F)\nwhile True:\n    s = Servo(9)\n'
                             '    s.write(10)\n')
 NEEDS["i2c_servo_par"] = ["LiquidCrystal_I2C", "Servo"]
+# optional blanks before the parenthesis of a constructor / method call
+SCRIPTS["spaced_ctors"] = 'from Reduino.Actuators import Servo\nfrom Reduino.Displays import LCD\ns = Servo (9)\nb = LCD (i2c_addr=0x27)\ns.write (90)\n'
+NEEDS["spaced_ctors"] = ["LiquidCrystal_I2C", "Servo"]
+# class and header names that only occur in strings and comments
+SCRIPTS["names_in_text"] = ('from Reduino.Communication import SerialMonitor\nfrom Reduino.Actuators import Led\nmon = SerialMonitor(9600)\nled = Led(13)  # not a Servo(9), no LCD(\n'
+                            'mon.write("No Servo attached")\ntitle = "LiquidCrystal_I2C demo"\nmon.write(title)\nmon.write("LiquidCrystal lcd(1, 2)")\n')
+NEEDS["names_in_text"] = []
+# a script that is legal Python but not UTF-8 (see ENCODINGS)
+SCRIPTS["latin1"] = 'from Reduino.Communication import SerialMonitor\nmon = SerialMonitor(9600)\nmon.write("Temp 25\u00b0C / caf\u00e9")\n'
+NEEDS["latin1"] = []
+ENCODINGS = {"latin1": "latin-1-cookie", "unicode": None}
 
 PAIRS = {
     "valid_uno": ("atmelavr", "uno", True), "valid_every": ("atmelmegaavr", "nano_every", True), "valid_hyphen": ("atmelavr", "a-star32U4", True),
@@ -109,12 +120,24 @@ def spec_check(cfg: dict, out: dict) -> list[tuple[str, str]]:
             v.append(("pio-needed-without-upload", "RuntimeError (PlatformIO required) although upload=False"))
             return v
     else:
+        if faults.get("pio") == "only-platformio":
+            # either the missing `pio` is noticed before anything is written, or the whole job is done with the tool that exists
+            clean_refusal = outcome == "raised" and exc == "RuntimeError" and not writes
+            consistent = outcome == "returned" and all(r[1] and r[1][0] == "platformio" for r in runs)
+            if not (clean_refusal or consistent):
+                v.append(("pio-check-passed-but-tool-missing", f"only `platformio` is installed: {outcome} {exc}, runs {[r[1] for r in runs]}, {len(writes)} writes"))
+            return v
         if faults.get("pio") in ("missing", "fail", "permission", "oserror"):
             if not (outcome == "raised" and exc == "RuntimeError"):
                 v.append(("missing-pio-not-runtimeerror", f"upload=True with PlatformIO {faults['pio']}: {outcome} {exc}"))
             if writes:
                 v.append(("write-before-pio-check", f"files written before the missing-PlatformIO error: {writes[:2]}"))
             return v
+    if cfg.get("encoding") == "latin-1-cookie" and outcome == "raised" and exc in ("UnicodeDecodeError", "ValueError", "SyntaxError"):
+        # refusing a script that is not UTF-8 is a rejection like any other - as long as nothing was produced from it
+        if writes or [r for r in runs if r[1] != ["pio", "--version"]]:
+            v.append(("effects-for-rejected-script", f"effects for a script refused as undecodable: {eff[:3]}"))
+        return v
     if not out.get("parse_ok"):
         if not (outcome == "raised" and exc in ("ValueError", "SyntaxError")):
             v.append(("rejected-script-not-propagated", f"script the transpiler rejects: {outcome} {exc}"))
@@ -207,11 +230,12 @@ def main() -> int:
     sd = seed()
     rng = rng_for(PROP, sd)
     fault_axes = {
-        "pio": ["ok", "missing", "fail", "permission", "oserror"], "mkdtemp": ["ok", "oserror"], "write_main": ["ok", "oserror"],
+        "pio": ["ok", "missing", "fail", "permission", "oserror", "only-platformio"], "mkdtemp": ["ok", "oserror"], "write_main": ["ok", "oserror"],
         "write_ini": ["ok", "oserror"], "build": ["ok", "fail", "signal"], "upload": ["ok", "fail", "signal"],
     }
     cases = []
-    ports = ["COM3", "/dev/ttyACM0", "/dev/tty.usb-1", "COM=9"]
+    ports = ["COM3", "/dev/ttyACM0", "/dev/tty.usb-1", "COM=9", "rfc2217://192.168.1.50:4000", "//./COM10", "/dev//ttyUSB0", "socket://localhost:7777",
+             "/dev/serial/by-id/usb-1a86_USB2.0-Serial-if00-port0", "/dev/./ttyUSB0", "/dev/ttyUSB0/", "\\\\.\\COM10", "COM{3}", "/dev/tty;1", "tty#1"]
     combos = list(itertools.product(*fault_axes.values()))
     keys = list(fault_axes)
     full = []
@@ -223,7 +247,7 @@ def main() -> int:
     if t == "quick":
         # single-fault and fault-free rows for every (pair, script, upload) + a random sample of multi-fault rows
         sel = [c for c in full if sum(1 for k, v in c[3].items() if v != "ok") <= 1 and
-               (c[1] in ("plain", "all_libs", "rejected", "unicode", "lcds_then_servo", "i2c_servo_par") or c[3] == dict.fromkeys(keys, "ok"))]
+               (c[1] in ("plain", "all_libs", "rejected", "unicode", "lcds_then_servo", "i2c_servo_par", "spaced_ctors", "names_in_text", "latin1") or c[3] == dict.fromkeys(keys, "ok"))]
         sel = [c for c in sel if PAIRS[c[0]][2] or c[3] == dict.fromkeys(keys, "ok") or c[3]["pio"] != "ok"]
         rest = [c for c in full if c not in sel]
         rng.shuffle(rest)
@@ -240,7 +264,7 @@ def main() -> int:
         cases.append({"script": make_script(SCRIPTS[sname], port, upload, plat, board, k % 4), "faults": faults,
                       "platform": plat, "board": board, "port": port, "valid_pair": valid,
                       "upload_effective": True if upload is None else upload, "script_name": sname, "pair": pair_name,
-                      "upload_arg": upload})
+                      "upload_arg": upload, "encoding": ENCODINGS.get(sname)})
     rep.extra["fault_points"] = keys
     rep.extra["full_product_size"] = len(full)
     for cfg, st, out in run_cases(run_child, cases):
